@@ -386,7 +386,7 @@ func c13pathCallbackReply(c *vt.Ctx, ctrl *sched.Controller, g c13gen, ps []*c13
 		var wants []c13want
 		var members []string
 		for _, p := range grp {
-			if p.unknown && len(p.method) == 1 && strings.Contains("gGieu", p.method) {
+			if p.unknown && rig.H.Assign(context.Background(), p.method) != nil {
 				continue // the rig's own built-in callback names
 			}
 			text := p.reqText
